@@ -24,6 +24,8 @@ FIXED = {  # commit subject prefix -> (property, key, what failed)
  "fix: proxy peer loops no longer block forever": ("C17", "proxy-cancel-leak", "after the proxy context is cancelled every peer read loop (and failing write loops/dials) stays blocked sending its error to the exited forwarding loop"),
  "fix: a failing old connection no longer removes": ("C17", "proxy-reattach-forgets-new", "peer re-attaches under its name, the old connection fails, the proxy deletes the new registration"),
  "fix: Demux.Cancel and Stop no longer panic": ("C18", "demux-cancel-close", "Cancel(key) while the run loop is parked handing an envelope to that key (or a writer is parked / writes afterwards): send on closed channel; Stop with the run loop parked on a hand-off never returns"),
+ "fix: the HTTP transport's idle cleanup no longer panics": ("C19", "http-cleaner-vs-sender-and-read-ctx", "idle cleaner closes the delivery channel while ServeHTTP is parked sending on it: send on closed channel; httpReadWriter.Read ignores its context"),
+ "fix: the HTTP transport's Write honours": ("C19", "http-write-ctx", "httpReadWriter.Write ignores its context: blocked POST does not return on cancel"),
  "fix: stream teardown unregisters before": ("C13", "teardown-rst-vs-dispatch", "transport failed, dispatch parked on the stream's full channel holds the mutex, teardown's reset write needs it: deadlock"),
 }
 KNOWN = [
